@@ -238,8 +238,8 @@ def exAt (k : ℕ) : Sys := (run exData [Store.init exData] (exOps.take k)).getD
 /-- handle `i` after the first `k` edits -/
 def exSt (k i : ℕ) : Store := ((exAt k)[i]?).getD (Store.init exData)
 
-theorem wf_ex (s : Store) (h : s.wfB = true) : WF s := (wfB_iff s).1 h
-theorem ok_ex (s : Store) (h : s.cacheOKB exData = true) : CacheOK exData s :=
+private theorem wf_ex (s : Store) (h : s.wfB = true) : WF s := (wfB_iff s).1 h
+private theorem ok_ex (s : Store) (h : s.cacheOKB exData = true) : CacheOK exData s :=
   (cacheOKB_iff exData s).1 h
 
 /-- `cacheOK_createRootNode`: a clone above the single top-level clone -/
